@@ -523,6 +523,24 @@ def parametric_history(args):
                                 coolant='const', asm_power=powers, L=0.3,
                                 ncell=1, power_order=2)
         ptrue = [cases.asm_power_integral(c, i + 1) for i in range(n)]
+        if spec.get('tfac'):
+            # several time points: the profile of every assembly scaled by
+            # its own factor at each of them; the optimiser works with the
+            # time average of the powers
+            import copy as _copy
+            tps = []
+            for fac in spec['tfac']:
+                pw = _copy.deepcopy(c['power'])
+                for i in range(n):
+                    p_ = pw[str(i + 1)]
+                    for comp in ('pins', 'duct', 'cool'):
+                        if p_.get(comp) is not None:
+                            p_[comp] = [[[x * fac[i] for x in co]
+                                         for co in cell] for cell in p_[comp]]
+                tps.append(pw)
+            c['powers'] = tps
+            ptrue = [sum(cases.asm_power_integral({'power': pw}, i + 1)
+                         for pw in tps) / len(tps) for i in range(n)]
         t_out = spec.get('t_out', 773.15)
         order = spec.get('order', ['ta', 'tb'])
         c['orificing'] = {
